@@ -1078,6 +1078,10 @@ class Interp:
             )
         return self.eval(sl, env)
 
+    def ex_Slice(self, n, env):
+        # a slice inside a tuple index (numpy style `a[i, :]`)
+        return self.eval_index(n, env)
+
     def ex_Subscript(self, n, env):
         obj = self.eval(n.value, env)
         idx = self.eval_index(n.slice, env)
